@@ -362,7 +362,7 @@ impl<'a> Lexer<'a> {
                 } else {
                     self.column += 1;
                 }
-                self.position += 1;
+                self.position += ch.len_utf8();
             } else {
                 break;
             }
@@ -374,11 +374,9 @@ impl<'a> Lexer<'a> {
     }
 
     fn peek_char(&self) -> char {
-        if self.position + 1 < self.input.len() {
-            self.input[self.position + 1..]
-                .chars()
-                .next()
-                .unwrap_or('\0')
+        let next = self.position + self.current_char().len_utf8();
+        if next < self.input.len() {
+            self.input[next..].chars().next().unwrap_or('\0')
         } else {
             '\0'
         }
@@ -386,7 +384,8 @@ impl<'a> Lexer<'a> {
 
     fn advance(&mut self) {
         if self.position < self.input.len() {
-            self.position += 1;
+            // Step over the whole character so the cursor stays on a char boundary
+            self.position += self.current_char().len_utf8();
             self.column += 1;
         }
     }
